@@ -19,6 +19,9 @@ import (
 
 var annotateComment bool
 
+// Compared tree file of the "annotate" command
+var annotatecompfile string
+
 // annotateCmd represents the annotate command
 var annotateCmd = &cobra.Command{
 	Use:   "annotate",
@@ -79,12 +82,12 @@ If neither -c nor -m are given, gotree annotate will wait for a reference tree o
 				f.WriteString(t.Tree.Newick() + "\n")
 			}
 		} else {
-			if intree2file == "none" {
-				intree2file = "stdin"
+			if annotatecompfile == "none" {
+				annotatecompfile = "stdin"
 			}
 			// We will annotate branches using labels of closest branches in
 			// the closest tree
-			if compTree, err = readTree(intree2file); err != nil {
+			if compTree, err = readTree(annotatecompfile); err != nil {
 				io.LogError(err)
 				return
 			}
@@ -163,7 +166,7 @@ If neither -c nor -m are given, gotree annotate will wait for a reference tree o
 func init() {
 	RootCmd.AddCommand(annotateCmd)
 	annotateCmd.PersistentFlags().StringVarP(&intreefile, "input", "i", "stdin", "Input tree(s) file")
-	annotateCmd.PersistentFlags().StringVarP(&intree2file, "compared", "c", "stdin", "Compared tree file")
+	annotateCmd.PersistentFlags().StringVarP(&annotatecompfile, "compared", "c", "stdin", "Compared tree file")
 	annotateCmd.PersistentFlags().StringVarP(&mapfile, "map-file", "m", "none", "Name map input file")
 	annotateCmd.PersistentFlags().BoolVar(&annotateComment, "comment", false, "Annotations are stored in Newick comment fields")
 	annotateCmd.PersistentFlags().StringVarP(&outtreefile, "output", "o", "stdout", "Resolved tree(s) output file")
